@@ -25,6 +25,7 @@ def plan(tier, seed):
                   "model: empty move merged with the stored move": 10000,
                   "model: mate score read at another ply": 15000,
                   "model: setBusy on a hit": 8000,
+                  "model: setBusy on a hit under non-zero contempt": 500,
                   "model: key in the last bucket of the table": 2000,
                   "mate: win score": 30000, "mate: loss score": 20000,
                   "hammer: hits on a record of another thread in a bucket written by >= 2 threads": 500000,
@@ -57,7 +58,9 @@ def plan(tier, seed):
         builds=[A, T],
         shards=shards,
         timeout=1200 if quick else 4 * 3600,
-        rule=("(i) model: histories of <= 250 commands (insert / probe / clear / nextGeneration / setBusy) on tables of 512..8192 "
+        rule=("(i) model: histories of <= 250 commands (insert / probe / clear / nextGeneration / setBusy; a quarter of the histories "
+              "also setWhiteContempt over a pool of 2..3 contempt values, a record stored under one contempt being a different "
+              "logical key under another) on tables of 512..8192 "
               "entries over a pool of 5..24 keys that share the top 16 and low 16 bits of <= 3 representatives (so they fall into "
               "the same buckets; first/last bucket and key 0 included); the model keeps, per key, the set of records the table may "
               "legitimately hold. Non-trivial = history (distinct by content) with an insert into a contended bucket, an "
